@@ -26,7 +26,7 @@ func init() {
 			"horizon: queries up to 3 days of playing time (whatever the tick count), tempo events in a single track",
 			"inverse domain: durations below 2^40 microseconds and tick rates below 10^7 ticks per second (statement)",
 		},
-		Require: []string{"maps", "queries", "border_queries", "monotonic_pairs", "repeated_tick_maps", "late_first_event_maps", "do_events_compared", "inverse_triples", "queries_beyond_2^32_ticks", "do_filtered_events_compared"},
+		Require: []string{"maps", "queries", "border_queries", "monotonic_pairs", "repeated_tick_maps", "late_first_event_maps", "do_events_compared", "inverse_triples", "queries_beyond_2^32_ticks", "do_filtered_events_compared", "tempo_track_not_first", "format2_maps"},
 		Run:     runC11,
 	})
 }
@@ -82,8 +82,34 @@ func runC11(c *mon.Ctx) {
 		}
 		tr = append(tr, ref.EncEv{Ev: ref.Ev{Delta: uint32(r.Intn(1000)), Msg: ref.EOT}})
 		ef := &ref.EncFile{Format: 1, Division: uint16(res), NTracks: -1, Tracks: [][]ref.EncEv{tr}}
-		if r.P(1, 2) { // a second track without tempo events
-			ef.Tracks = append(ef.Tracks, []ref.EncEv{{Ev: ref.Ev{Delta: 5, Msg: []byte{0x91, 1, 1}}}, {Ev: ref.Ev{Delta: uint32(r.Intn(5000)), Msg: []byte{0x81, 1, 0}}}, {Ev: ref.Ev{Delta: 0, Msg: ref.EOT}}})
+		// other tracks without tempo events; the tempo track may sit at any index, in any format
+		other := func() []ref.EncEv {
+			return []ref.EncEv{{Ev: ref.Ev{Delta: 5, Msg: []byte{0x91, 1, 1}}}, {Ev: ref.Ev{Delta: uint32(r.Intn(5000)), Msg: []byte{0x81, 1, 0}}}, {Ev: ref.Ev{Delta: 0, Msg: ref.EOT}}}
+		}
+		switch r.Intn(4) {
+		case 0: // single track, format 0
+			ef.Format = 0
+		case 1:
+			ef.Tracks = append(ef.Tracks, other())
+		default:
+			nother := r.Range(1, 3)
+			pos := r.Intn(nother + 1)
+			var trs [][]ref.EncEv
+			for k := 0; k <= nother; k++ {
+				if k == pos {
+					trs = append(trs, tr)
+				} else {
+					trs = append(trs, other())
+				}
+			}
+			ef.Tracks = trs
+			ef.Format = uint16(r.Range(1, 2))
+			if pos > 0 {
+				c.Count("tempo_track_not_first", 1)
+			}
+			if ef.Format == 2 {
+				c.Count("format2_maps", 1)
+			}
 		}
 		b := ef.Bytes(nil)
 		in := map[string]any{"resolution": res, "tempo_events(abs tick, us per quarter)": fmt.Sprint(tm.Events), "file": mon.Hex(b)}
